@@ -392,7 +392,11 @@ def r62_eval(ctx, repo):
                                 "uses: " + msg[:300])
         fails.setdefault(key, msg)
     ops = _access_ops()
-    FEATS = ("out", "pair1", "pair2", "deriv", "tout")
+    FEATS = ("out", "pair1", "pair2", "deriv", "tout", "plug")
+
+    def L_lookup(m, name):
+        from .. import lib_C04 as _L
+        return _L.lookup_attr(m.it, m.cls, name, None)
 
     def arr(v):
         return FeatData(bytes([v, v, v, v]))
@@ -418,6 +422,9 @@ def r62_eval(ctx, repo):
             return None if o is None else bytes([0xD]) + o[:3]
         if feat == "tout":
             return None if t1 is None else bytes([0xE, t1, 0, 0])
+        if feat == "plug":
+            return bytes([0x10, ev["f1"], st["plug"], 0]) if "f1" in ev \
+                else None
         raise KeyError(feat)
 
     # hook run in the middle of a recipe (a second thread that changes a
@@ -465,17 +472,41 @@ def r62_eval(ctx, repo):
         m.new("pair2", m_c, req_features=["f1"])
         m.new("deriv", m_d, req_features=["out"])
         m.new("tout", m_e, req_features=["t1"])
+        # a plugin recipe: carries an identifier, can be removed and
+        # registered again with another method under the same name
+        m.plug = m.new("plug", lambda ds: FeatData(bytes(
+            [0x10, get(ds, "f1")[0], 1, 0])), req_features=["f1"],
+            identifier="plugin-recipe-1")
+        m.plug2 = lambda: m.new("plug", lambda ds: FeatData(bytes(
+            [0x10, get(ds, "f1")[0], 2, 0])), req_features=["f1"],
+            identifier="plugin-recipe-2")
         return m
 
     def run_history(hist):
         m = build()
         st = {"events": {"f1": 1, "f2": 5}, "k1": 1, "t1": None,
-              "tout": None, "edit": []}
+              "tout": None, "edit": [], "plug": 1}
         objs = {"f1": arr(1), "f2": arr(5)}
         cfg = {"experiment": {"event count": 4}, "calculation": {"k1": 1}}
         ds = m.dataset(dict(objs), cfg)
         done = []
         for label, op in hist + [("observe", None)]:
+            if isinstance(op, dict) and op.get("replug"):
+                # what remove_plugin_feature() and a new PlugInFeature do
+                # to the registry of recipes
+                import types
+                reg = L_lookup(m, "features")
+                names = L_lookup(m, "feature_names")
+                if not isinstance(reg, list) or m.plug not in reg \
+                        or not isinstance(names, list):
+                    raise AnalysisError("r62_eval: recipe registry of "
+                                        "AncillaryFeature not a list")
+                reg.remove(m.plug)
+                names.remove("plug")
+                m.plug = m.plug2()
+                st["plug"] = 2
+                done.append(label)
+                continue
             if isinstance(op, dict):
                 # a read during which another thread changes a setting:
                 # what this read returns is not judged (either state is
@@ -595,6 +626,11 @@ def r62_eval(ctx, repo):
               "during the computation of `out`", {"read": "deriv", "k1": 2})
     hists += [[conc], [conc_d], [conc, dict(ops)["read deriv"]
                                  and ("read deriv", "deriv")]]
+    replug = ("plugin recipe `plug` removed and registered again under the "
+              "same name with another method (other identifier)",
+              {"replug": True})
+    hists += [[("read plug", "plug"), replug], [replug],
+              [("read plug", "plug"), replug, ("read plug", "plug")]]
     for h in hists:
         run_history(list(h))
     ctx.stat("R6.2 model histories", len(hists))
@@ -1448,6 +1484,10 @@ def _drop(s, what):
 
 
 MUTANTS = [
+    ("recipe identifier not part of the hash (F06h returns)",
+     "dclab/rtdc_dataset/feat_anc_core/ancillary_feature.py",
+     ("        if self.identifier:\n"
+      "            hasher.update(obj2bytes(self.identifier))\n", ""), "R6.2"),
     ("temporary features looked up after cached ancillaries (seeded C06_12)",
      CORE,
      [("        elif feat in self._usertemp:\n"
